@@ -253,10 +253,47 @@ def full(shape, value, dtype=None):
     if not anysym(shape, value) and Ctx.cur is None:
         return _np.full(shape, value, dtype=dtype)
     if isinstance(value, float) and value != value:
-        a = SArr.const(shape, 0, "f")
+        # NaN is not a real number: it is one distinguished unconstrained constant (x == nan is satisfiable for every x, so a
+        # NaN where a value is specified is refutable; arithmetic on it is not modelled)
+        a = SArr.const(shape, SNum(NAN), "f")
         a.meta["all_nan"] = True
         return a
     return SArr.const(shape, value)
+
+
+NAN = z3.Real("nan?")
+
+
+def shape(a):
+    if not _sym(a):
+        return _np.shape(a)
+    return _arr(a).shape
+
+
+def broadcast_to(a, shape_, **k):
+    shape_ = _shape_tuple(shape_)
+    if not anysym(a, shape_):
+        return _np.broadcast_to(a, shape_)
+    from .arrays import broadcast_to as _bt
+    return _bt(_arr(a), shape_)
+
+
+def isclose(a, b, rtol=1e-05, atol=1e-08, equal_nan=False):
+    """|a - b| <= atol + rtol * |b|  (numpy's asymmetric definition), over the reals"""
+    if not anysym(a, b):
+        return _np.isclose(a, b, rtol=rtol, atol=atol, equal_nan=equal_nan)
+    from .arrays import broadcast_shapes
+    from .arrays import broadcast_to as _bt
+    A, Bv = _arr(a), _arr(b)
+    sh = broadcast_shapes(A.shape, Bv.shape)
+    ae, be = _bt(A, sh)._elem, _bt(Bv, sh)._elem
+    rt, at = z3.RealVal(repr(float(rtol))), z3.RealVal(repr(float(atol)))
+
+    def el(*i):
+        x, y = to_real(ae(*i)), to_real(be(*i))
+        d = x - y
+        return z3.If(d >= 0, d, -d) <= at + rt * z3.If(y >= 0, y, -y)
+    return SArr(sh, el, "b")
 
 
 def zeros_like(a, **k):
